@@ -7,7 +7,15 @@ workers run ``read_eml_format_mail`` / ``read_mbox_format_mail`` / ``iterate_sup
 plain observations; the verdict is computed here, field by field, against the model and across the two carriers.
 
 Normalisations the oracle applies (and nothing else):
-  * subject / message-id: runs of folding white space -> one blank, outer blanks stripped;
+  * subject: compared *exactly* with the decoded value the wire defines (own RFC 2047 / RFC 5322 reader over the
+    rendered header, G.subject_readings), interior white space included - runs of blanks, tabs, U+00A0, U+3000 ...
+    inside or outside encoded words are content.  Two tolerances only: (1) outer white space is not significant
+    (the blank after "Subject:" and white space before the line end are padding); (2) the one white-space character
+    that follows the line break of a *fold* (the writers fold only at a single blank between two words, never inside
+    or next to a run of white space, so it is always exactly one) may come back literally (RFC 5322 2.2.3: only the CRLF is removed, a tab
+    continuation stays a tab) or as one blank (the conventional reading of tab-folded headers; what decode_header
+    does when it joins lines).  The line break itself must be gone;
+  * message-id: exact (the "<...>" token, no surrounding white space);
   * addresses: exact (order, case, count); display names exact after RFC 2047 / quoted-string decoding;
   * date: the returned ISO string is parsed and compared *as an instant* with the Date: header; a naive
     result is read as UTC (what ``parsedate_to_datetime`` yields for ``-0000``);
@@ -26,6 +34,10 @@ with its control twin and is a KNOWN-FINDING only when the twin is exact):
                                                                            .eml returns a re-serialisation, not the bytes
   fold-at-encoded-word   Subject folded between =?..?= and plain text   -> the blank at the fold is lost (both readers)
   date-second-60         Date: hh:mm:60 (RFC 5322 leap second)          -> the whole mailbox fails with ValueError
+and two that only the rendered bytes show (G.wire_features; detected per message, a message may carry both next to
+a planned one; the control twin is the same message with Subject and Message-ID on one line each):
+  plain-folded-subject             a folded Subject without any encoded-word -> .eml returns it still folded ("a\n b")
+  message-id-on-continuation-line  "Message-ID:" CRLF SP "<id>"              -> .mbox returns " <id>" (leading blank)
 
 Writer faults kept out of the workload (not reader defects): CPython 3.12's header *generator* mangles list
 separators / blanks when it refolds long non-ASCII values, so non-ASCII display names and long non-ASCII subjects
@@ -57,7 +69,7 @@ FILE_KEYS = ("filename", "file_extension", "file_path", "folder_path")
 
 # Risky features (reproduced against the unchanged tree, see known_findings.d/C16.json).  They are kept out of
 # `clean` messages; each risky case carries exactly one of them and is accompanied by its control twin.
-RISKY = ("mbox-attachment", "nested-rfc822", "fold-at-encoded-word", "date-second-60")
+RISKY = ("mbox-attachment", "nested-rfc822", "fold-at-encoded-word", "date-second-60", "plain-folded-subject", "message-id-on-continuation-line")
 
 
 # ============================================================================================= worker side
@@ -201,17 +213,38 @@ def truth_of(spec: dict) -> dict:
         data = G.attachment_truth_bytes(a, pol)
         atts.append({"filename": a["filename"], "ctype": a["ctype"], "data": data, "sha": core.sha(data), "inline": a["disp"] == "inline",
                      "cte": a["cte"], "kind": a["kind"], "ext": {"png": "png", "bin": "bin"}.get(a["kind"], a["kind"])})
-    return {"subject": spec["subject"], "from": list(spec["from"]), "to": G.flat(spec["to"]), "cc": G.flat(spec["cc"]),
+    return {"subject": spec["subject"], "subject_accept": G.subject_readings(G.header_probe(spec)), "from": list(spec["from"]), "to": G.flat(spec["to"]), "cc": G.flat(spec["cc"]),
             "bcc": G.flat(spec["bcc"]), "reply_to": G.flat(spec["reply_to"]), "instant": G.spec_instant(spec),
             "message_id": spec["message_id"], "plain": spec["plain"] or "", "html": spec["html"] or "", "atts": atts}
+
+
+_UNFOLD = re.compile(r"\r?\n(?=[ \t])")
+
+
+def subject_symptom(got, t: dict):
+    """None when the subject is exact (see the module doc for the two tolerances), else the symptom's name."""
+    accept = set(t["subject_accept"]) | {t["subject"]}
+    if not isinstance(got, str):
+        return "differs"
+    g = got.strip()
+    if g in accept:
+        return None
+    if _UNFOLD.sub("", g) in accept or re.sub(r"\r?\n[ \t]", " ", g) in accept:
+        return "fold-line-break-kept"
+    gw, ww = g.split(), t["subject"].split()
+    if gw == ww:
+        return "interior-white-space-altered"          # same words, other white space between them
+    if "".join(gw) == "".join(ww) and len(gw) < len(ww):
+        return "blank-between-words-lost"
+    return "differs"
 
 
 def compare_message(t: dict, o: dict, carrier: str) -> list[tuple[str, str, str]]:
     """-> list of (component, symptom, detail).  component/symptom are mechanism names, never values."""
     d = []
-    if _ws(o["subject"]) != t["subject"]:
-        glued = isinstance(o["subject"], str) and _ws(o["subject"]).replace(" ", "") == t["subject"].replace(" ", "") and len(_ws(o["subject"])) < len(t["subject"])
-        d.append(("subject", "blank-between-words-lost" if glued else "differs", f"got {o['subject']!r} want {t['subject']!r}"))
+    sym = subject_symptom(o["subject"], t)
+    if sym:
+        d.append(("subject", sym, f"got {o['subject']!r} want {t['subject']!r}" + (f" (or, fold white space literal, {t['subject_accept']!r})" if len(t["subject_accept"]) > 1 else "")))
     if o["from"] != t["from"]:
         sym = "address-differs" if o["from"][1] != t["from"][1] else "display-name-differs"
         d.append(("from", sym, f"got {o['from']!r} want {t['from']!r}"))
@@ -234,8 +267,9 @@ def compare_message(t: dict, o: dict, carrier: str) -> list[tuple[str, str, str]
         d.append(("date", "not-iso", f"got {o['date']!r} want instant {t['instant'].isoformat()}"))
     elif inst != t["instant"]:
         d.append(("date", "other-instant", f"got {o['date']!r} want instant {t['instant'].isoformat()} (delta {inst - t['instant']})"))
-    if _ws(o["message_id"]) != t["message_id"]:
-        d.append(("message-id", "differs", f"got {o['message_id']!r} want {t['message_id']!r}"))
+    if o["message_id"] != t["message_id"]:
+        outer = isinstance(o["message_id"], str) and o["message_id"].strip() == t["message_id"]
+        d.append(("message-id", "outer-white-space-kept" if outer else "differs", f"got {o['message_id']!r} want {t['message_id']!r}"))
     for k in ("plain", "html"):
         got, want = _body(o[k]), _body(t[k])
         ok = got == want
@@ -332,8 +366,8 @@ def compare_carriers(t: dict, e: dict, m: dict) -> list[tuple[str, str, str]]:
     d = []
     for k in CROSS_FIELDS:
         a, b = e[k], m[k]
-        if k in ("subject", "message_id"):
-            a, b = _ws(a), _ws(b)
+        if k == "subject" and subject_symptom(a, t) is None and subject_symptom(b, t) is None:
+            continue                       # each side is one of the admitted readings of the same wire form
         if k in ("plain", "html"):
             a, b = _body(a), _body(b)
             if a != b and _body(G.mboxrd_escape_text(a)) == b:
@@ -360,13 +394,22 @@ def build_case(rng, tok, fx, n_msgs: int, risky: str | None, cid: int, stats=Non
     allow = {"max_atts": 4}
     specs = []
     for i in range(n_msgs):
-        s = G.random_spec(rng, tok, fx, allow=allow)
-        if s["hdr"]["mode"] == "stdlib":
-            bad = G.header_roundtrip_problems(s)
-            if bad:                                  # writer fault: not the reader's problem, re-render by hand
-                G.to_hand_mode(s)
+        for attempt in range(6):
+            s = G.random_spec(rng, tok, fx, allow=allow)
+            if s["hdr"]["mode"] == "stdlib":
+                bad = G.header_roundtrip_problems(s)
+                if bad:                                  # writer fault: not the reader's problem, re-render by hand
+                    G.to_hand_mode(s)
+                    if stats is not None:
+                        stats["stdlib_writer_faults_avoided"] = stats.get("stdlib_writer_faults_avoided", 0) + 1
+            if s["hdr"]["mode"] == "stdlib" and {"fold-at-encoded-word", "fold-in-white-space-run"} & set(G.wire_features(s)):
+                G.to_hand_mode(s)                        # the stdlib writer chose a risky / ambiguous fold: the hand writer never does
                 if stats is not None:
-                    stats["stdlib_writer_faults_avoided"] = stats.get("stdlib_writer_faults_avoided", 0) + 1
+                    stats["stdlib_folds_at_encoded_word_avoided"] = stats.get("stdlib_folds_at_encoded_word_avoided", 0) + 1
+            if s["subject"] in G.subject_readings(G.header_probe(s)) and not {"fold-at-encoded-word", "fold-in-white-space-run"} & set(G.wire_features(s)):
+                break                                    # the wire says what the model says (always, for the hand writer: G.self_test)
+            if stats is not None:
+                stats["hand_writer_subject_faults"] = stats.get("hand_writer_subject_faults", 0) + 1
         specs.append(s)
     if risky and specs:
         s = rng.choice(specs)
@@ -378,6 +421,10 @@ def build_case(rng, tok, fx, n_msgs: int, risky: str | None, cid: int, stats=Non
             G.force_fold_at_encoded_word(rng, tok, s)
         elif risky == "date-second-60":
             G.force_second_60(s)
+    for s in specs:
+        # features that only the rendered bytes show (the stdlib writer folds where it likes)
+        s["auto_risky"] = [f for f in G.wire_features(s) if f in RISKY and f != "fold-at-encoded-word"]   # that one is planned, never incidental
+        s["features"] = sorted(set(s["features"]) | {"risky:" + f for f in s["auto_risky"]})
     eol = rng.choice([b"\n", b"\n", b"\r\n"])
     mb = {"eol": "CRLF" if eol == b"\r\n" else "LF", "blank_lines": rng.choice([1, 1, 1, 2]), "final_blank": rng.random() < 0.8}
     return {"cid": cid, "specs": specs, "mbox_opts": mb, "risky": risky}
@@ -421,7 +468,7 @@ def materialise(case: dict) -> dict:
         items.append({"kind": "mbox", "b64": core.b64(tmbox), "path": f"c16-{case['cid']}-twin.mbox"})
         index.append(("mbox-twin", None, tspecs))
         for i, (tw, s) in enumerate(zip(twins, specs)):
-            if s.get("risky") and tw is not None:
+            if (s.get("risky") or s.get("auto_risky")) and tw is not None:
                 tr = G.render_message(tw)
                 tt = truth_of(tw)
                 for a in tt["atts"]:
@@ -435,27 +482,30 @@ def materialise(case: dict) -> dict:
 def twin_of(spec: dict):
     """Benign form of the message: the nested message dropped / the Subject folded elsewhere; for the mbox carrier
     every attachment is dropped as well (done by the caller).  None when the message needs no twin at all."""
+    t = None
     if spec.get("risky") == "nested-rfc822":
         t = copy.deepcopy(spec)
         t["atts"] = [a for a in t["atts"] if a["kind"] != "eml"]
         t.pop("risky")
         t["features"] = sorted(f for f in t["features"] if f not in ("att:eml:8bit", "risky:nested-rfc822") and not f.startswith("inner:"))
-        return t
-    if spec.get("risky") == "fold-at-encoded-word":
+    elif spec.get("risky") == "fold-at-encoded-word":
         t = copy.deepcopy(spec)
         t["hdr"]["fold_at_ew"] = False
         t.pop("risky")
         t["features"] = sorted(f for f in t["features"] if f != "risky:fold-at-encoded-word")
-        return t
-    if spec.get("risky") == "date-second-60":
+    elif spec.get("risky") == "date-second-60":
         t = copy.deepcopy(spec)
         t["date_style"] = "std"
         t.pop("risky")
         t["features"] = sorted(set(f for f in t["features"] if f not in ("risky:date-second-60", "date:second-60")) | {"date:std"})
-        return t
-    if spec["atts"]:
-        return copy.deepcopy(spec)
-    return None
+    if spec.get("auto_risky"):
+        t = t or copy.deepcopy(spec)
+        G.benign_wire_form(t)                       # Subject and Message-ID on one line each
+        t["features"] = sorted(f for f in t["features"] if f[6:] not in spec["auto_risky"] or not f.startswith("risky:"))
+        t["auto_risky"] = []
+    if t is None and spec["atts"]:
+        t = copy.deepcopy(spec)
+    return t
 
 
 # ============================================================================================= verdicts
@@ -466,6 +516,8 @@ KNOWN_SYMPTOMS = {
                       ("eml", "attachment-eml", "bytes-differ"), ("mbox", "attachment-eml", "bytes-differ")},
     "fold-at-encoded-word": {("eml", "subject", "blank-between-words-lost"), ("mbox", "subject", "blank-between-words-lost")},
     "date-second-60": {("mbox", "extraction", "raised-ValueError")},
+    "plain-folded-subject": {("eml", "subject", "fold-line-break-kept")},
+    "message-id-on-continuation-line": {("mbox", "message-id", "outer-white-space-kept")},
 }
 
 
@@ -531,6 +583,10 @@ def main(run, only_cases=None):
     run.require("msg_fixtures_through_accessors", c.get("fixture_msg_results", 0), 2)
     run.require("header_charsets_seen", len([k for k in c if k.startswith("subject_charset_")]), 6)
     run.require("carrier_cross_comparisons", c.get("carrier_cross_comparisons", 0), run.n(500, 8000))
+    run.require("subjects_with_interior_white_space_compared", c.get("subjects_with_interior_white_space_compared", 0), run.n(150, 2500))
+    run.require("subject_white_space_kinds_seen", len([k for k in c if k.startswith("subject_ws_")]), len(G.SUBJECT_WS))
+    run.require("subjects_with_tab_fold_compared", c.get("subjects_with_tab_fold_compared", 0), run.n(10, 150))
+    run.require("display_names_with_interior_white_space", c.get("display_names_with_interior_white_space", 0), run.n(100, 1500))
     if run.inconclusive_cases > 0.02 * max(1, len(cases)):
         run.inconclusive(f"{run.inconclusive_cases} of {len(cases)} cases inconclusive")
 
@@ -582,7 +638,7 @@ def judge_case(run, case, m, obs):
                               f"{len(mbox_results)} results for {len(specs)} messages; subjects {got_subj!r}"))
             else:
                 order = [_ws(r["subject"]) for r in mbox_results]
-                if order != [t["subject"] for t in truths] and sorted(order) == sorted(t["subject"] for t in truths):
+                if order != [_ws(t["subject"]) for t in truths] and sorted(order) == sorted(_ws(t["subject"]) for t in truths):
                     diffs.append(("mbox", None, "boundaries", "order-differs", f"{order!r}"))
                 for i, r in enumerate(mbox_results):
                     for comp, sym, det in compare_message(truths[i], r, "mbox"):
@@ -627,11 +683,14 @@ def judge_case(run, case, m, obs):
             if tw is not None and not tw:
                 feature = case["risky"]
         if spec is not None:
-            if spec.get("risky") and (carrier, comp, sym) in KNOWN_SYMPTOMS.get(spec["risky"], ()):
-                feature = spec["risky"]
+            mine = [f for f in [spec.get("risky")] + list(spec.get("auto_risky") or []) if f and (carrier, comp, sym) in KNOWN_SYMPTOMS.get(f, ())]
+            if mine:
+                feature = mine[0]
                 tw = twin_dirty.get(idx)
                 if tw is None or tw:
                     feature = "clean"      # no clean control twin -> not attributable to the risky feature
+                if carrier == "mbox" and feature in (spec.get("auto_risky") or ()) and twin_dirty.get("mbox") != []:
+                    feature = "clean"      # a symptom of the mailbox reader needs the twin *mailbox* to be exact
             elif carrier == "mbox" and (carrier, comp, sym) in KNOWN_SYMPTOMS["mbox-attachment"] and [a for a in spec["atts"] if a["disp"] != "inline"]:
                 feature = "mbox-attachment"
                 tw = twin_dirty.get("mbox")
@@ -676,7 +735,17 @@ def _count_message(run, spec, truth, r):
     for d in r.get("direct", []):
         if "error" in d:
             run.count("direct_extraction_errors")
+    if any(f.startswith("subj:ws:") for f in spec["features"]):
+        run.count("subjects_with_interior_white_space_compared")
+    if len(truth["subject_accept"]) > 1:
+        run.count("subjects_with_tab_fold_compared")
     for f in spec["features"]:
+        if f.startswith("subj:ws:"):
+            run.count("subject_ws_" + f[8:])
+        elif f.startswith("name:ws-quoted") or f.startswith("name:nonascii-ws"):
+            run.count("display_names_with_interior_white_space")
+        elif f.startswith("risky:"):
+            run.count("risky_" + f[6:])
         if f.startswith("subj:") and f.rsplit(":", 1)[-1] in G.CHARSETS + ["ascii"]:
             run.count("subject_charset_" + f.rsplit(":", 1)[-1].replace("us-ascii", "ascii"))
         elif f.startswith("name:nonascii"):
